@@ -144,7 +144,8 @@ func c19viaResult(c *ctx, s, f, d, stragglers int, nerr int, opts options.RunOpt
 		res.RecordStarted()
 	}
 	for i := 0; i < nerr; i++ {
-		res.AddError(errors.New([]string{"setup failed", "teardown failed\nsecond line {{.X}}"}[i%2]))
+		// (a failed setup followed by a failed teardown leaves TWO errors in the result; a third for good measure)
+		res.AddError(errors.New([]string{"setup failed", "teardown failed\nsecond line {{.X}}", "%d %s {{"}[i%3]))
 	}
 	var rows []c19row
 	// progress lines, both forms, from the snapshot the Result stores
@@ -271,7 +272,7 @@ func init() {
 				for d := 0; d <= m; d++ {
 					opts := options.RunOptions{Scenario: "s", MaxDuration: time.Second, Concurrency: 1,
 						IgnoreDropped: (s+f+d)%2 == 0, MaxFailures: uint64((s * f) % 3), MaxFailuresRate: []int{0, 0, 5, 50}[(s+d)%4]}
-					for _, r := range c19viaResult(c, s, f, d, (s+f)%3, (s+2*f+d)%7/5, opts, (s+f+d)%3 != 0) {
+					for _, r := range c19viaResult(c, s, f, d, (s+f)%3, []int{0, 0, 0, 1, 1, 2, 3}[(s+2*f+d)%7], opts, (s+f+d)%3 != 0) {
 						w.write(r)
 					}
 				}
@@ -288,7 +289,7 @@ func init() {
 			}
 			opts := options.RunOptions{Scenario: "s", MaxDuration: time.Second, Concurrency: 1, IgnoreDropped: c.rng.Intn(2) == 0,
 				MaxFailures: uint64(c.rng.Intn(3) * c.rng.Intn(50)), MaxFailuresRate: []int{0, 0, 1, 10, 50}[c.rng.Intn(5)]}
-			for _, r := range c19viaResult(c, s, f, d, c.rng.Intn(4)*c.rng.Intn(30), c.rng.Intn(6)/5, opts, c.rng.Intn(4) != 0) {
+			for _, r := range c19viaResult(c, s, f, d, c.rng.Intn(4)*c.rng.Intn(30), []int{0, 0, 0, 1, 2, 3}[c.rng.Intn(6)], opts, c.rng.Intn(4) != 0) {
 				w.write(r)
 			}
 		}
